@@ -276,6 +276,7 @@ def run(chk, ctx):
     p = ctx.protocol()
     c07.r2(chk, ctx, p, ctx.mod("state_engine"))   # a retried attempt's timeout clock starts when it is re-run (EnteredTime = now + delay)
     from . import round3
+    round3.timer_cleared_only_on_completion(chk, ctx)
     round3.timer_delay_unmodified(chk, ctx)
     chk.assume("time.time() and datetime.strptime('%f') behave as documented (%f right-pads up to 6 digits)")
     chk.assume("units: *Seconds fields and .timestamp() are seconds; set_timeout/execute_task/Message.expiration take milliseconds")
